@@ -181,3 +181,23 @@ for _k, _a, _b in _EDITS:
         continue
     assert _a in TEXTS[_k][0], (_k, _a)
     TEXTS[_k] = (TEXTS[_k][0].replace(_a, _b), TEXTS[_k][1])
+
+_EDITS2 = [
+ ("C07", "The whole API surface is compared panic/no-panic per call",
+  "System level: a well-formedness invariant relating the objects each thread holds to its span stack (handles on the right line, "
+  "open spans forming the parent chain, strictly decreasing line epochs, non-empty tokens) is preserved by each of the 31 API calls "
+  "of the system model, none of which reaches a panic site on a well-formed thread in either profile; hence no history whose actions "
+  "meet the stated conditions (non-zero id prefix, fewer than 2^64 steps, no local collector collected under open local spans "
+  "opened after it) ever shows a panic. The whole API surface is compared panic/no-panic per call"),
+ ("C13", "drop before completion, cycles inside the final call);",
+  "drop before completion, cycles inside the final call); adapters dropped before completion whose wrapped future owns spans of "
+  "the trace are checked by the adrop stream (what the wrapped object owns is released before the adapter's span, also with a "
+  "collector cycle as the teardown starts);"),
+ ("C18", "elapsed() is compared as Some/None.",
+  "elapsed() is compared as Some/None in the histories and numerically in the longspan stream (spans open 3 ms to 2.1 s, handed "
+  "to and finished on other threads while hundreds of collector cycles pass: duration, begin time and elapsed() against brackets "
+  "measured around the calls)."),
+]
+for _k, _a, _b in _EDITS2:
+    assert _a in TEXTS[_k][0], (_k, _a)
+    TEXTS[_k] = (TEXTS[_k][0].replace(_a, _b), TEXTS[_k][1])
